@@ -40,7 +40,9 @@ vars == <<key, before, after, spelling, location, alsoGit, i, allowed, kept, git
 SeqsUpTo(S, n) == UNION {[1..k -> S] : k \in 0..n}
 \* the line under test as it stands in the file
 Carrier == IF form = "access-suffix" THEN [name |-> key.name \o ".access", doc |-> TRUE, pat |-> TRUE] ELSE key
-File == before \o <<Carrier>> \o after
+\* a neighbour that repeats the key under test has the key's own standing with the allow-list
+AsLine(n) == IF n.name \in {"ctx.dupkey", "ctx.samekey"} THEN [name |-> n.name, doc |-> key.doc, pat |-> key.pat] ELSE n
+File == [j \in DOMAIN before |-> AsLine(before[j])] \o <<Carrier>> \o [j \in DOMAIN after |-> AsLine(after[j])]
 At   == Len(before) + 1                           \* position of the key under test
 
 Init == /\ key \in Keys /\ spelling \in Spellings /\ location \in Locations /\ alsoGit \in BOOLEAN
@@ -49,10 +51,14 @@ Init == /\ key \in Keys /\ spelling \in Spellings /\ location \in Locations /\ a
         /\ (Thin /\ (before # <<>> \/ after # <<>>)) => (spelling = "lower" /\ location = "worktree")
         \* "ctx.samekey": the key under test a second time, with the very value Git's configuration has for
         \* it (so only with the overlay, and only for keys that are kept at all); otherwise no overlay
+        \* "ctx.dupkey": the line under test written once more (every occurrence is filtered on its own)
         /\ LET same == \E j \in DOMAIN before : before[j].name = "ctx.samekey"
                sameAfter == \E j \in DOMAIN after : after[j].name = "ctx.samekey"
-           IN /\ ~sameAfter
+               dup == \E j \in DOMAIN before : before[j].name = "ctx.dupkey"
+               dupAfter == \E j \in DOMAIN after : after[j].name = "ctx.dupkey"
+           IN /\ ~sameAfter /\ ~dupAfter
               /\ (same => (alsoGit /\ key.doc /\ Len(before) = 1 /\ after = <<>>))
+              /\ (dup => (~alsoGit /\ Len(before) = 1 /\ after = <<>>))
               /\ ((Thin /\ ~same /\ (before # <<>> \/ after # <<>>)) => ~alsoGit)
         /\ form \in Forms
         \* the suffixed form is only of interest for keys that are not allowed by themselves, on its own
